@@ -374,6 +374,11 @@ func (ni *NodeInfo) isTaskAllocatableOnNonAllocatedResources(
 	if !ni.isValidGpuPortion(task.ResReq) {
 		return false
 	}
+	// the portion of a shared-GPU task is what it takes of each of its devices: more than a whole device
+	// (a gpu-memory request above the memory of this node's GPUs) cannot be served, whole multiples included
+	if ni.getResourceGpuPortion(task.ResReq) > 1 {
+		return false
+	}
 	nodeIdleOrReleasingWholeGpus := int64(math.Floor(nodeNonAllocatedResources.GPUs()))
 	nodeNonAllocatedResourcesMatchingSharedGpus := ni.fractionTaskGpusAllocatableDeviceCount(task)
 	if nodeIdleOrReleasingWholeGpus+nodeNonAllocatedResourcesMatchingSharedGpus >= task.ResReq.GetNumOfGpuDevices() {
